@@ -659,4 +659,73 @@ MUTANTS = [
       "            for t in a.to_vec().into_iter().rev() {", "            for t in a.to_vec().into_iter() {", {"C21": "from_array"}),
     M("c21-mixed-equal", ["C21"], "src/lterm.rs",
       "            (LTermInner::Empty, LTermInner::Empty) => true,", "            (LTermInner::Empty, LTermInner::Empty) => true,\n            (LTermInner::Empty, LTermInner::Val(_)) => true,", {"C21": ""}),
+    # ---- C14: macro translation ------------------------------------------------------------
+    M("c14-eq-emits-diseq", ["C14"], "macros/src/lib.rs",
+      "let output = quote! { ::proto_vulcan::relation::eq::eq ( #left, #right ) };",
+      "let output = quote! { ::proto_vulcan::relation::diseq::diseq ( #left, #right ) };",
+      {"C14": "construct|Eq"}),
+    M("c14-inop-fail-succeed", ["C14"], "macros/src/lib.rs",
+      "let output = quote! { &[ ::proto_vulcan::GoalCast::cast_into(::proto_vulcan::relation::fail()) ] };",
+      "let output = quote! { &[ ::proto_vulcan::GoalCast::cast_into(::proto_vulcan::relation::succeed()) ] };",
+      {"C14": "ClauseInOperator|variant=Fail"}),
+    M("c14-inner-improper-as-proper", ["C14"], "macros/src/lib.rs",
+      """            TreeTerm::ImproperList { items } => {
+                let items: Vec<&InnerTreeTerm> = items.iter().collect();
+                let output = quote! { ::proto_vulcan::lterm::LTerm::improper_from_array( &[ #(#items),* ] ) };
+                output.to_tokens(tokens);
+            }
+            TreeTerm::ProperList { items } => {
+                let items: Vec<&InnerTreeTerm> = items.iter().collect();
+                let output =
+                    quote! { ::proto_vulcan::lterm::LTerm::from_array( &[ #(#items),* ] ) };""",
+      """            TreeTerm::ImproperList { items } => {
+                let items: Vec<&InnerTreeTerm> = items.iter().collect();
+                let output = quote! { ::proto_vulcan::lterm::LTerm::from_array( &[ #(#items),* ] ) };
+                output.to_tokens(tokens);
+            }
+            TreeTerm::ProperList { items } => {
+                let items: Vec<&InnerTreeTerm> = items.iter().collect();
+                let output =
+                    quote! { ::proto_vulcan::lterm::LTerm::from_array( &[ #(#items),* ] ) };""",
+      {"C14": "InnerTreeTerm|variant=ImproperList"}),
+    M("c14-query-vars-rev", ["C14"], "macros/src/lib.rs",
+      "let query: Vec<Ident> = self.variables.iter().map(|x| &x.name).cloned().collect();",
+      "let query: Vec<Ident> = self.variables.iter().rev().map(|x| &x.name).cloned().collect();",
+      {"C14": "list-discipline"}),
+    M("c14-from-vec-next-back", ["C14"], "macros/src/lib.rs",
+      "#( #query: vi.next().unwrap(), )*", "#( #query: vi.next_back().unwrap(), )*",
+      {"C14": "from_vec-positional"}),
+    M("c14-litbool-inverted", ["C14"], "macros/src/lib.rs",
+      "            if b.value {\n                Ok(Clause::Succeed(b))", "            if !b.value {\n                Ok(Clause::Succeed(b))",
+      {"C14": "Clause::parse|literal"}),
+    M("c14-improper-flag-kept", ["C14"], "macros/src/lib.rs",
+      "                    is_proper = false;", "                    is_proper = true;",
+      {"C14": "improper-on-bar"}),
+    M("c14-fresh-body-rev", ["C14"], "macros/src/lib.rs",
+      "self.variables.iter().map(|x| &x.path).cloned().collect();\n        let body: Vec<&Clause> = self.body.iter().collect();\n        let output = quote! {{\n            #( let #variables: #variable_types",
+      "self.variables.iter().map(|x| &x.path).cloned().collect();\n        let body: Vec<&Clause> = self.body.iter().rev().collect();\n        let output = quote! {{\n            #( let #variables: #variable_types",
+      {"C14": "list-discipline"}),
+    M("c14-inferredconj-from-array-norev", ["C14"], "src/operator/conj.rs",
+      "        let mut p = G::succeed();\n        for g in goals.to_vec().drain(..).rev() {",
+      "        let mut p = G::succeed();\n        for g in goals.to_vec().drain(..) {",
+      {"C14": "conjunction-builder"}),
+    M("c14-loop-emits-conde", ["C14"], "macros/src/lib.rs",
+      "::proto_vulcan::operator::anyo::anyo(::proto_vulcan::operator::OperatorParam::new( &[ #( #body ),* ] ))",
+      "::proto_vulcan::operator::conde::conde(::proto_vulcan::operator::OperatorParam::new( &[ #( #body ),* ] ))",
+      {"C14": "construct|Loop"}),
+    M("c14-diseq-solve-unifies", ["C14"], "src/relation/diseq.rs",
+      "        match state.disunify(&self.u, &self.v) {", "        match state.unify(&self.u, &self.v) {",
+      {"C14": "diseq|solve-calls"}),
+    M("silent-c14-rename-local", ["C14"], "macros/src/lib.rs",
+      "        let body: Vec<&Clause> = self.body.iter().collect();\n        let output = quote! { &[ #( ::proto_vulcan::GoalCast::cast_into(#body) ),* ] };",
+      "        let goals: Vec<&Clause> = self.body.iter().collect();\n        let output = quote! { &[ #( ::proto_vulcan::GoalCast::cast_into(#goals) ),* ] };",
+      silent=True),
+    M("silent-c14-eq-operands-swapped", ["C14"], "macros/src/lib.rs",
+      "let output = quote! { ::proto_vulcan::relation::eq::eq ( #left, #right ) };",
+      "let output = quote! { ::proto_vulcan::relation::eq::eq ( #right, #left ) };",
+      silent=True),
+    M("silent-c14-no-empty-list-split", ["C14"], "macros/src/lib.rs",
+      "                if items.is_empty() {\n                    output = quote! { ::proto_vulcan::lterm::LTerm::empty_list() };\n                } else {\n                    output =\n                        quote! { ::proto_vulcan::lterm::LTerm::from_array( &[ #(#items),* ] ) };\n                }",
+      "                output = quote! { ::proto_vulcan::lterm::LTerm::from_array( &[ #(#items),* ] ) };",
+      silent=True),
 ]
